@@ -142,6 +142,12 @@ static void CloseTarget(void) {
     ChkIO(TargName);
 }
 
+/* Tektronix hex checksums add up the hex digits (nibbles), not the bytes */
+
+static unsigned NibbleSum(Byte Value) {
+    return (Value >> 4) + (Value & 15);
+}
+
 static void PrCData(
         FILE* pTargFile, char Ident, char const* pName, char const* pCTargName,
         char const* pCBlockName, LongWord Value) {
@@ -501,7 +507,8 @@ static void ProcessFile(char const* FileName, LongWord Offset) {
                     case eHexFormatTek:
                         errno = 0;
                         fprintf(TargFile, "/%04X%02X%02X", LoWord(ErgStart), Lo(TransLen),
-                                Lo(Lo(ErgStart) + Hi(ErgStart) + TransLen));
+                                Lo(NibbleSum(Lo(ErgStart)) + NibbleSum(Hi(ErgStart))
+                                   + NibbleSum(Lo(TransLen))));
                         ChkIO(TargName);
                         ChkSum = 0;
                         break;
@@ -604,7 +611,9 @@ static void ProcessFile(char const* FileName, LongWord Offset) {
                                 errno = 0;
                                 fprintf(TargFile, "%02X", Lo(Buffer[z]));
                                 ChkIO(TargName);
-                                ChkSum += Buffer[z];
+                                ChkSum += (ActFormat == eHexFormatTek)
+                                                  ? NibbleSum(Buffer[z])
+                                                  : Buffer[z];
                                 SumLen++;
                             }
                         }
